@@ -1,0 +1,48 @@
+// Add-only test shim (build tag verif): dump of package-level tables.
+
+//go:build verif
+// +build verif
+
+package brotli
+
+// VerifShared returns a dump of the package-level lookup tables that every
+// Reader shares.
+func VerifShared() []uint32 {
+	var out []uint32
+	for _, t := range [][]uint8{contextP1LUT[:], contextP2LUT[:], reverseLUT[:]} {
+		for _, b := range t {
+			out = append(out, uint32(b))
+		}
+	}
+	for _, r := range iacLUT {
+		out = append(out, uint32(r.ins.base), uint32(r.ins.bits), uint32(r.cpy.base), uint32(r.cpy.bits))
+	}
+	for _, r := range distShortLUT {
+		out = append(out, uint32(r.index), uint32(int32(r.delta)))
+	}
+	for _, t := range distLongLUT {
+		for _, r := range t {
+			out = append(out, uint32(r.base), uint32(r.bits))
+		}
+	}
+	for _, b := range dictLUT {
+		out = append(out, uint32(b))
+	}
+	for _, x := range dictBitSizes {
+		out = append(out, uint32(x))
+	}
+	for _, x := range dictSizes {
+		out = append(out, uint32(x))
+	}
+	for _, x := range dictOffsets {
+		out = append(out, uint32(x))
+	}
+	for _, pd := range []*prefixDecoder{&decCLens, &decMaxRLE, &decWinBits, &decCounts} {
+		out = append(out, pd.chunks...)
+		out = append(out, uint32(len(pd.links)), pd.chunkMask, pd.linkMask, pd.chunkBits, pd.minBits, pd.numSyms)
+		for _, l := range pd.links {
+			out = append(out, l...)
+		}
+	}
+	return out
+}
